@@ -303,6 +303,11 @@ func Build(c Config) *Stack {
 			sw[i], addrs[i] = ks, ks.LocalAddrs()[0]
 		}
 		st.Nodes = wrapSwarms(sw, addrs)
+		inner := make([]memswarm.Addr, n)
+		for i := range inner {
+			inner[i] = addrs[i].Addr
+		}
+		st.Raw = rawNode(r.NewSwarm(), inner)
 	case "frag-p2pke":
 		r := memswarm.NewRealm(memOpts(c)...)
 		sw := make([]p2p.Swarm[p2pkeswarm.Addr[memswarm.Addr]], n)
